@@ -16,6 +16,7 @@ import (
 	"strings"
 
 	"github.com/synnaxlabs/x/gorp"
+	"github.com/synnaxlabs/x/kv"
 	"github.com/synnaxlabs/x/kv/memkv"
 	"github.com/synnaxlabs/x/query"
 	"github.com/synnaxlabs/x/errors"
@@ -219,7 +220,7 @@ type txm struct {
 
 type sys struct {
 	nKeys     int
-	kv        interface{ Close() error }
+	kv        *failKV
 	db        *gorp.DB
 	raw       *gorp.DB
 	table     *gorp.Table[int32, Row]
@@ -233,8 +234,30 @@ type sys struct {
 
 var vals = []string{"", "b"} // includes the zero value of both indexed fields
 
+// failKV lets the harness make the storage refuse one commit: a transaction whose commit
+// fails must leave the table, and every index, exactly as an aborted one does.
+type failKV struct {
+	kv.DB
+	failNext bool
+}
+
+type failTx struct {
+	kv.Tx
+	db *failKV
+}
+
+func (d *failKV) OpenTx() kv.Tx { return &failTx{Tx: d.DB.OpenTx(), db: d} }
+
+func (t *failTx) Commit(ctx context.Context, opts ...any) error {
+	if t.db.failNext {
+		t.db.failNext = false
+		return errors.New("injected: storage refused the commit")
+	}
+	return t.Tx.Commit(ctx, opts...)
+}
+
 func newSys(nKeys int, cat []*ftree) (*sys, error) {
-	store := memkv.New()
+	store := &failKV{DB: memkv.New()}
 	s := &sys{nKeys: nKeys, kv: store, db: gorp.Wrap(store), raw: gorp.Wrap(store), committed: map[int32]string{}, cat: cat}
 	s.txs[0], s.txs[1] = &txm{}, &txm{}
 	if err := s.openTable(); err != nil {
@@ -318,7 +341,7 @@ func (s *sys) Ops() []string {
 			ops = append(ops, fmt.Sprintf("del:%s:%d", tname(ti), k))
 		}
 		if ti >= 0 {
-			ops = append(ops, "commit:"+tname(ti), "abort:"+tname(ti))
+			ops = append(ops, "commit:"+tname(ti), "abort:"+tname(ti), "commitfail:"+tname(ti))
 		}
 	}
 	for k := 1; k <= s.nKeys; k++ {
@@ -357,10 +380,16 @@ func (s *sys) Apply(op string) (string, error) {
 		t.open = true
 		t.overlay = map[int32]*string{}
 		return "ok", nil
-	case "commit", "abort":
+	case "commit", "abort", "commitfail":
 		ti := parseT(p[1])
 		t := s.txs[ti]
 		var err error
+		if p[0] == "commitfail" {
+			s.kv.failNext = true
+			if t.tx.Commit(ctx) == nil {
+				return "", fmt.Errorf("harness: injected commit failure did not fail")
+			}
+		}
 		if p[0] == "commit" {
 			err = t.tx.Commit(ctx)
 			if err == nil {
@@ -745,7 +774,7 @@ func main() {
 	st := seqx.Explore(r, cfg)
 	seqx.Merge(r, st)
 	r.Set("filter_trees_per_view", len(cat))
-	r.Set("rule", "BFS over op sequences {open/commit/abort T1,T2; set/upd/del in db|T1|T2; replicated set/del through the kv observer; table reopen}; states deduplicated on (committed rows, per-tx overlays); in every new state every filter tree is run via index and via gorp.Match in every view and compared with the model")
+	r.Set("rule", "BFS over op sequences {open/commit/abort/commit-refused-by-the-storage T1,T2; set/upd/del in db|T1|T2; replicated set/del through the kv observer; table reopen}; states deduplicated on (committed rows, per-tx overlays); in every new state every filter tree is run via index and via gorp.Match in every view and compared with the model")
 	r.Assume("memkv (pebble in-memory) is the storage; go1.26.8 toolchain instead of the repo's go1.26.3")
 	r.Assume("ordered pagination is judged on views without own staged writes (documented limitation of walkOrder)")
 	r.Finish()
